@@ -107,3 +107,48 @@ func JudgeRuns(c *core.Ctx, runs [][]any, fn func(inv string, run int, text stri
 		live = nl
 	}
 }
+
+// ScorchRecords projects recorded events onto the vocabulary of
+// spec/trace/TraceScorch.tla (step-by-step conformance of the introducer).
+func ScorchRecords(evs []Event) []any {
+	segsOf := func(v any) (int, []any) {
+		m, _ := v.(map[string]any)
+		ep, _ := m["epoch"].(int)
+		out := []any{}
+		if segs, ok := m["segs"].([]any); ok {
+			for _, s := range segs {
+				sm := s.(map[string]any)
+				f := 0
+				if fs, _ := sm["file"].(string); fs != "" {
+					f = 1
+				}
+				out = append(out, []any{sm["id"], sm["count"], sm["deleted"], f})
+			}
+		}
+		return ep, out
+	}
+	var out []any
+	for _, ev := range evs {
+		name, _ := ev["ev"].(string)
+		switch name {
+		case "Reset":
+			out = append(out, map[string]any{"ev": name})
+		case "Submit":
+			out = append(out, map[string]any{"ev": name, "b": ev["b"], "puts": ev["puts"], "dels": ev["dels"]})
+		case "IntroSegment":
+			ep, segs := segsOf(ev["root"])
+			out = append(out, map[string]any{"ev": name, "b": ev["b"], "sid": ev["sid"], "epoch": ep, "segs": segs})
+		case "IntroPersist":
+			ep, segs := segsOf(ev["root"])
+			out = append(out, map[string]any{"ev": name, "epoch": ep, "segs": segs})
+		case "MergeTake", "PersistTake":
+			out = append(out, map[string]any{"ev": name})
+		case "MergeRequest":
+			out = append(out, map[string]any{"ev": name, "filemerge": ev["filemerge"], "new": ev["new"], "inputs": ev["inputs"], "task": ev["task"]})
+		case "IntroMerge":
+			ep, segs := segsOf(ev["root"])
+			out = append(out, map[string]any{"ev": name, "filemerge": ev["filemerge"], "new": ev["new"], "skipped": ev["skipped"], "epoch": ep, "segs": segs})
+		}
+	}
+	return out
+}
